@@ -13,11 +13,11 @@ META = {
 
 def dir_cfg(mode, flags, n, tier="quick"):
     """loop bounds of ext2fs_process_dir_block derived from the region length n:
-    .1 outer loop: one dirent (>= 8 bytes, >= 12 with INCLUDE_REMOVED) per iteration while offset < n-8;
+    .1 outer loop: at least 8 bytes per iteration while offset < n-8;
     .0 deleted-entry scan: 4 bytes per iteration from offset >= 12 up to final_offset <= n;
     ext2fs_validate_entry.0: >= 8 bytes per iteration"""
     removed = bool(flags & 2)
-    outer = (n - 8 + 11) // 12 if removed else (n - 8 + 7) // 8
+    outer = (n - 8 + 7) // 8
     inner = (n - 12) // 4 + 1
     val = (n - 12) // 8 + 1
     d = {"MODE": mode, "FLAGS": flags, "_tier": tier,
@@ -69,7 +69,7 @@ def ext_cfg(seq, depth=2, tier="quick", nreads=4):
                        "ext2fs_extent_get.1:%d" % (2 * depth + 3), "ext2fs_extent_get.2:%d" % (2 * depth + 3)]
     return d
 EXT_WALKS = [ext_cfg("ROOT NEXT_SIB PREV_SIB", 0, "thorough", nreads=1), ext_cfg("LAST_SIB PREV_SIB CURRENT", 0, "thorough", nreads=1),
-             ext_cfg("NEXT NEXT", 0, "thorough", nreads=1)]
+             ]   # "NEXT NEXT" at depth 0: SAT back end out of memory (18 GB) -> not registered
 HARNESSES.append(
     dict(name="exthdr", src="exthdr.c", funcs=["ext2fs_extent_header_verify"], checks="memsafe", unwind=3,
          unwindset=["main.0:2", "main.1:13", "main.2:2"], backends=["default"],
